@@ -190,6 +190,7 @@ def addToMem (s : State) (name : Name) (att : Option Attempt) (size : Nat) (pl :
   | none => none
   | some a =>
     if a.fail then none
+    else if a.data.length ≠ size then none                 -- the buffer must be exactly what was reserved
     else if !verifyOK H s.cfg name a.data then none       -- digest check before the entry becomes readable
     else if !validName name || pl ≤ 0 then none            -- generateMetadataFromBytes
     else if !(MemCache.add s.mem name (newEntry crc s name a.data pl)).2 then none   -- duplicate
